@@ -183,7 +183,7 @@ def run_harness(exe, op, seed, n, out_path, extra_env=None, timeout=3600):
 
 
 class Case:
-    __slots__ = ("id", "tags", "model", "impl", "oracle", "descr")
+    __slots__ = ("id", "tags", "model", "impl", "oracle", "descr", "op", "run_module", "n")
 
     def __init__(self, fields):
         self.id, tags, self.model, self.impl, self.oracle, self.descr = fields
@@ -338,32 +338,46 @@ def check(pid, tier, seed):
     # ---- 2. implementation ----
     exe, err = build_harness()
     cases, stats = [], {}
+    ops = cfg.get("ops") or [(cfg["op"], cfg["run_module"], cfg["n"])]
     if exe is None:
         violations.append((write_replay(pid, "harness_build", {
             "kind": "correspondence", "what": "the harness no longer compiles against /repo's working tree, "
             "so the model/implementation correspondence of %s cannot be established" % pid,
             "compiler_output": err}), "no-failing-input-found"))
     else:
-        n = cfg["n"][tier]
-        tsv = os.path.join(wdir, "cases.tsv")
-        rc, out = run_harness(exe, cfg["op"], seed, n, tsv, extra_env={"VERIF_TIER": tier},
-                              timeout=cfg.get("timeout", {}).get(tier, 3000))
-        if rc != 0 or not os.path.exists(tsv):
-            violations.append((write_replay(pid, "harness_run", {
-                "kind": "correspondence", "what": "the harness operation '%s' aborted" % cfg["op"],
-                "seed": seed, "n": n, "output": out[-6000:]}), "no-failing-input-found"))
-        else:
-            cases, stats = read_cases(tsv)
+        for (op, run_module, nn) in ops:
+            n = nn[tier]
+            tsv = os.path.join(wdir, "cases_%s.tsv" % op)
+            rc, out = run_harness(exe, op, seed, n, tsv, extra_env={"VERIF_TIER": tier},
+                                  timeout=cfg.get("timeout", {}).get(tier, 3000))
+            if rc != 0 or not os.path.exists(tsv):
+                violations.append((write_replay(pid, "harness_run_" + op, {
+                    "kind": "correspondence", "what": "the harness operation '%s' aborted" % op,
+                    "seed": seed, "n": n, "output": out[-6000:]}), "no-failing-input-found"))
+            else:
+                cs, st = read_cases(tsv)
+                for c in cs:
+                    c.op, c.run_module, c.n = op, run_module, n
+                    c.id = op + ":" + c.id
+                cases.extend(cs)
+                for k, v in st.items():
+                    stats[op + ":" + k] = v
 
     # ---- 3. model ----
     mism = []
     if cases:
-        mism_idx, errors = eval_model(cfg["run_module"], cases, wdir)
-        if errors:
-            violations.append((write_replay(pid, "model_eval", {
-                "kind": "correspondence", "what": "coqc failed while evaluating the model on the cases",
-                "errors": errors[:3]}), "no-failing-input-found"))
-        mism = [cases[i] for i in mism_idx]
+        by_mod = {}
+        for c in cases:
+            by_mod.setdefault(c.run_module, []).append(c)
+        for run_module, cs in by_mod.items():
+            mdir = os.path.join(wdir, run_module)
+            os.makedirs(mdir, exist_ok=True)
+            mism_idx, errors = eval_model(run_module, cs, mdir)
+            if errors:
+                violations.append((write_replay(pid, "model_eval_" + run_module, {
+                    "kind": "correspondence", "what": "coqc failed while evaluating the model on the cases",
+                    "errors": errors[:3]}), "no-failing-input-found"))
+            mism.extend(cs[i] for i in mism_idx)
     mism_ids = set(c.id for c in mism)
 
     # ---- 4/5. oracle verdicts and known findings ----
@@ -371,7 +385,13 @@ def check(pid, tier, seed):
     known_classes = {}
     for k in known:
         known_classes.setdefault(k["class"], []).append(k)
-    failing = [c for c in cases if c.oracle.startswith("FAIL")]
+    all_failing = [c for c in cases if c.oracle.startswith("FAIL")]
+    # an oracle failure is judged by the check of the property its class names (C10-..., C05-...)
+    failing = [c for c in all_failing if (c.fail_class() or "").startswith(pid) or c.fail_class() == "unclassified"]
+    foreign = {}
+    for c in all_failing:
+        if c not in failing:
+            foreign[c.fail_class()] = foreign.get(c.fail_class(), 0) + 1
     kf_hits = {}
     new_fail = []
     for c in failing:
@@ -384,30 +404,30 @@ def check(pid, tier, seed):
         hits = kf_hits.get(cls, [])
         for k in entries:
             wit = k.get("witness")
-            if any(h.id == wit for h in hits) or (wit is None and hits):
+            if any(h.id.split(':', 1)[-1] == wit for h in hits) or (wit is None and hits):
                 known_lines.append("KNOWN-FINDING: property=%s %s [class %s, witness %s, %d case(s) of this class in this run]"
                                    % (pid, k["what"], cls, wit, len(hits)))
 
     # new oracle failures: concrete failing inputs
     for c in new_fail[:5]:
-        payload = {"kind": "failing-input", "property": pid, "op": cfg["op"], "seed": seed, "n": cfg["n"][tier],
+        payload = {"kind": "failing-input", "property": pid, "op": c.op, "seed": seed, "n": c.n,
                    "case_id": c.id, "tags": c.tags, "oracle": c.oracle, "input": c.descr,
                    "implementation_observation": c.impl, "model_expression": c.model,
                    "model_disagrees": c.id in mism_ids,
                    "replay": "VERIF_OP=%s VERIF_SEED=%d VERIF_N=%d VERIF_CASE=%s (./vp replay <this file>)"
-                             % (cfg["op"], seed, cfg["n"][tier], c.id)}
+                             % (c.op, seed, c.n, c.id.split(":", 1)[1])}
         violations.append((write_replay(pid, "fail_" + re.sub(r"[^A-Za-z0-9_.-]", "_", c.id), payload), ""))
     # model / implementation disagreements without a failing oracle
     pure_mism = [c for c in mism if not (c.oracle.startswith("FAIL") and c in new_fail)]
     if pure_mism and not new_fail:
         c = pure_mism[0]
-        payload = {"kind": "correspondence", "property": pid, "op": cfg["op"], "seed": seed, "n": cfg["n"][tier],
+        payload = {"kind": "correspondence", "property": pid, "op": c.op, "seed": seed, "n": c.n,
                    "what": "model (coq/theories/Run/%s.v) and implementation disagree on %d case(s); the "
                            "theorems of Properties/%s.v are therefore no longer shown to describe this code. "
                            "The property oracles found no failing input among the %d cases of this run."
-                           % (cfg["run_module"], len(mism), pid, len(cases)),
+                           % (c.run_module, len(mism), pid, len(cases)),
                    "first_case": {"case_id": c.id, "tags": c.tags, "input": c.descr, "implementation_observation": c.impl,
-                                  "model_expression": c.model, "model_observation": model_value(cfg["run_module"], c, wdir)},
+                                  "model_expression": c.model, "model_observation": model_value(c.run_module, c, wdir)},
                    "all_disagreeing_case_ids": [x.id for x in mism][:200]}
         violations.append((write_replay(pid, "correspondence", payload), "no-failing-input-found"))
 
@@ -427,6 +447,7 @@ def check(pid, tier, seed):
     cov["traces_validated_against_impl"] = len(cases) - len(mism)
     cov["model_impl_disagreements"] = len(mism)
     cov["oracle_failures"] = len(failing)
+    cov["oracle_failures_of_other_properties_seen"] = foreign
     cov["oracle_failures_in_known_classes"] = sum(len(v) for v in kf_hits.values())
     cov["input_distribution_by_tag"] = tag_hist
     cov["observation_histogram"] = dict(sorted(obs_hist.items(), key=lambda kv: -kv[1])[:12])
@@ -471,6 +492,8 @@ def replay(path):
     if j.get("kind") not in ("failing-input", "correspondence") or "op" not in j:
         return 0
     case_id = j.get("case_id") or j.get("first_case", {}).get("case_id")
+    if case_id and ":" in case_id:
+        case_id = case_id.split(":", 1)[1]
     exe, err = build_harness()
     if exe is None:
         log(err)
